@@ -226,14 +226,8 @@ static int streamDispatch(MPT_INTERFACE(input) *in, MPT_TYPE(event_handler) cmd,
 		sw.arg = arg;
 		return mpt_stream_dispatch(&srm->data, streamMessage, &sw);
 	}
-	srm->data._rd._state.data.pos += len;
-	srm->data._rd._state.data.len -= len;
-	srm->data._rd._state.data.msg = -1;
-	mpt_queue_shift(&srm->data._rd);
-	
-	ret = mpt_queue_recv(&srm->data._rd);
-	
-	return (ret > 0) ? MPT_EVENTFLAG(Retry) : MPT_EVENTFLAG(None);
+	/* no handler: mpt_stream_dispatch consumes the message */
+	return mpt_stream_dispatch(&srm->data, 0, 0);
 }
 
 
